@@ -168,21 +168,57 @@ func doRegister(name int) string {
 	return out
 }
 
-// doRegistered calls the real updater.Registered twice, damages the first
+// doRegistered calls the real updater.Registered twice, writes into the first
 // result, and answers with the names of the second: the registry hands out
-// copies.
+// copies. (The write is undone, so that a registry that hands out its own map
+// is reported and not destroyed.)
 func doRegistered() (string, bool) {
 	a := updater.Registered()
-	n := len(a)
-	for k := range a {
-		delete(a, k)
-	}
 	a["intruder"] = nil
 	b := updater.Registered()
+	_, leaked := b["intruder"]
+	delete(a, "intruder")
+	delete(b, "intruder")
 	var names []int
 	for k := range b {
 		names = append(names, facNum(k))
 	}
 	sort.Ints(names)
-	return "facs " + csv(names), len(b) == n
+	return "facs " + csv(names), !leaked
+}
+
+// preflight checks the one contract of UpdaterSet the manager relies on so
+// blindly that a violation crashes the process inside a goroutine the manager
+// starts: Updaters() returns the updaters of the set, each once, nothing else.
+func preflight(r *hx.Run) bool {
+	w := &world{r: r, sc: &scenario{}, lastName: map[int64]int{}}
+	set := driver.NewUpdaterSet()
+	var us []driver.Updater
+	for i := 0; i < 3; i++ {
+		sc := newScript(i, 2+i, "pde"[i])
+		w.sc.scripts = append(w.sc.scripts, sc)
+		u := w.mkUpdater(sc)
+		us = append(us, u)
+		if err := set.Add(u); err != nil {
+			r.Fail("", fmt.Sprintf("UpdaterSet.Add-of-a-new-name-failed: %v", err))
+			return false
+		}
+	}
+	got := set.Updaters()
+	okAll := len(got) == len(us)
+	for _, u := range us {
+		n := 0
+		for _, g := range got {
+			if g == u {
+				n++
+			}
+		}
+		okAll = okAll && n == 1
+	}
+	r.Case("preflight: UpdaterSet{u2,u3,u4}.Updaters()", false)
+	if !okAll {
+		r.Fail("", fmt.Sprintf("UpdaterSet.Updaters()-does-not-return-the-updaters-of-the-set: a set of u2,u3,u4 returned %d entries: %v", len(got), got))
+		return false
+	}
+	return true
 }
